@@ -98,6 +98,14 @@ def impl_object_history(a, dt, how):
         s.reset_values(a)
         _ = (s.velocity, s.displacement, s.pgv, s.pgd, s.pga)
         s.running_average(3)
+    elif how == 'remove_rolling_average[acceleration]':   # the branch that edits the record in place (any mtype but 'velocity')
+        s.reset_values(a)
+        _ = (s.velocity, s.displacement, s.pgv, s.pgd, s.pga)
+        s.remove_rolling_average(mtype='acceleration', freq_window=1.0 / (3 * dt) * 0.999)
+    elif how == 'remove_rolling_average[velocity]':
+        s.reset_values(a)
+        _ = (s.velocity, s.displacement, s.pgv, s.pgd, s.pga)
+        s.remove_rolling_average(mtype='velocity', freq_window=1.0 / (3 * dt) * 0.999)
     elif how == 'rebase_displacement':      # in-place edit of the record followed by clear_cache
         s.reset_values(a)
         _ = (s.velocity, s.displacement, s.pgv, s.pgd, s.pga)
@@ -133,7 +141,7 @@ def impl_object_rect_after_reads(a, dt):
     return v, d, [float(s.pga)] + want
 
 
-HOWS = ['reset_values', 'reset_values(shorter)', 'add_series', 'add_constant+add_series', 'running_average', 'rebase_displacement']
+HOWS = ['reset_values', 'reset_values(shorter)', 'add_series', 'add_constant+add_series', 'running_average', 'rebase_displacement', 'remove_rolling_average[acceleration]', 'remove_rolling_average[velocity]']
 
 
 def gen(rng, tier):
@@ -174,7 +182,7 @@ def gen(rng, tier):
         # float32 storage: numpy integrates in single precision (relative rounding 6e-8 per operation, accumulated over the
         # record), which is rounding, not a defect: compared at 1e-3 of the series peak instead of exactly
         # after running_average / rebase_displacement the record is no longer made of dyadic numbers: tolerance domain
-        out.append((site, trap, dt, a, r, 1e-3 if 'float32' in site else (1e-10 if ('running_average' in site or 'rebase_displacement' in site) else 0)))
+        out.append((site, trap, dt, a, r, 1e-3 if 'float32' in site else (1e-10 if ('running_average' in site or 'rebase_displacement' in site or 'remove_rolling_average' in site) else 0)))
     for k in range(n_tol):
         n = gens.small_len(rng, 2, maxlen)
         a, style = gens.float_record(rng, n)
